@@ -37,6 +37,15 @@ pub fn finish(ctx: &Ctx) -> i32 {
             println!("  signature: {}", v.signature);
         }
     }
+    {
+        let mut by_sig: std::collections::BTreeMap<&str, usize> = Default::default();
+        for v in viols.iter() {
+            *by_sig.entry(v.signature.as_str()).or_insert(0) += 1;
+        }
+        for (s, n) in by_sig {
+            println!("  violations by signature: {n:6} x {s}");
+        }
+    }
     let evals = ctx.evaluations.load(std::sync::atomic::Ordering::Relaxed);
     let inconcl = ctx.inconclusive.load(std::sync::atomic::Ordering::Relaxed);
     let nontrivial = ctx.nontrivial_count();
